@@ -66,7 +66,7 @@ def generate(streams, tier):
     str_labels = isinstance(world["labels"][0], str)
     for _ in range(rw.randint(2, 5)):
         k = weighted(rw, [("forward", 4), ("rejection", 3), ("lw", 3), ("gibbs_kernel", 1), ("gibbs_sample", 1), ("simulate", 3 if str_labels else 0),
-                          ("law_forward", 1), ("law_rejection", 1), ("law_simulate", 1 if str_labels else 0)])
+                          ("law_forward", 1), ("law_rejection", 1), ("law_simulate", 1 if str_labels else 0), ("simulate_missing", 1 if str_labels else 0)])
         op = {"op": k, "seed": rw.randrange(2**31), "size": rw.choice([1, 2, 7, 50, 400]), "include_latents": rw.random() < 0.5,
               "perturb": [rw.randrange(2**31) for _ in range(2)]}
         if k in ("rejection", "lw", "law_rejection", "simulate"):
@@ -100,6 +100,10 @@ def generate(streams, tier):
                     v = rw.choice(cand2)
                     op["virt"] = [[v, [rw.choice([0.1, 0.25, 0.5, 0.9, 1.0]) for _ in range(world["card"][v])]]]
             op["size"] = rw.choice([1, 5, 40])
+        if k == "simulate_missing":
+            op["missing_prob"] = rw.choice([0.1, 0.3, 0.5, 0.9])
+            op["missing_cols"] = rw.sample(range(n), rw.randint(1, n)) if rw.random() < 0.5 else None
+            op["size"] = rw.choice([5, 40, 400])
         if k == "law_simulate":
             # simulate under a hard intervention (and possibly evidence): the law is the truncated factorisation
             v = rw.randrange(n)
@@ -202,6 +206,12 @@ def _execute_mn(case, ctx):
                     ctx.fail("reproducible", f"{PROP}:not_reproducible:gibbs", {"size": size, "seed": op["seed"], "model": "mn"})
                 if len(a) != size:
                     ctx.fail("row_count", f"{PROP}:row_count:gibbs", {"got": len(a), "want": size})
+                else:
+                    try:
+                        cols_ = sorted(a.columns, key=lambda c: names.lab2idx[c])
+                        ctx.xanswer("samples:gibbs_mn", [[names.lab2idx[c] for c in cols_]] + [[int(x) for x in row] for row in a[cols_].values.tolist()])
+                    except (KeyError, ValueError, TypeError):
+                        pass
         except Exception as e:
             ctx.fail("succeeds", f"{PROP}:raise:{op['op']}:{type(e).__name__}:{exc_site(e)}", {"exc": exc_brief(e), "model": "mn"})
 
@@ -244,6 +254,8 @@ def execute(case, ctx):
         except (KeyError, ValueError, TypeError) as e:
             ctx.fail("valid_states", f"{PROP}:invalid_state:{what}", exc_brief(e))
             return None
+        # a fixed seed reproduces the samples in every process: compared across workers with other hash seeds (hash-seed twin)
+        ctx.xanswer("samples:" + what, [[r_[v] for v in sorted(r_)] for r_ in rows])
         if fixed:
             for r_ in rows:
                 for v, s in fixed.items():
@@ -385,6 +397,63 @@ def execute(case, ctx):
                     ctx.fail("reproducible", f"{PROP}:not_reproducible:gibbs", {"size": size, "seed": seed})
                 if len(a) != size:
                     ctx.fail("row_count", f"{PROP}:row_count:gibbs", {"got": len(a), "want": size})
+                else:
+                    try:
+                        cols_ = sorted(a.columns, key=lambda c: names.lab2idx[c])
+                        ctx.xanswer("samples:gibbs", [[names.lab2idx[c] for c in cols_]] + [[int(x) for x in row] for row in a[cols_].values.tolist()])
+                    except (KeyError, ValueError, TypeError):
+                        pass
+            elif k == "simulate_missing":
+                import pandas as pd
+
+                mcols = [v for v in (op.get("missing_cols") or []) if v < n] or None
+                visible = expect_cols(inc)
+                kw = {"missing_columns": [L(v) for v in mcols]} if mcols else {}
+
+                def call():
+                    return model.simulate(n_samples=size, include_latents=inc, seed=seed, show_progress=False, include_missing=True, missing_prob=op["missing_prob"], **kw)
+
+                a, b = twice(call)
+                ctx.checked += 1
+                ctx.probe("simulate_with_missing_values")
+                if not a.equals(b):
+                    ctx.fail("reproducible", f"{PROP}:not_reproducible:simulate_missing", {"size": size, "seed": seed})
+                if sorted(map(repr, a.columns)) != sorted(repr(L(v)) for v in visible) or len(a) != size:
+                    ctx.fail("columns", f"{PROP}:columns:simulate_missing", {"got": [repr(c) for c in a.columns], "rows": len(a), "want_rows": size})
+                    continue
+                canon = []
+                nmiss = 0
+                bad = None
+                for j in range(size):
+                    row = []
+                    for v in visible:
+                        x = a[L(v)].iloc[j]
+                        if pd.isna(x):
+                            nmiss += 1
+                            row.append(-1)
+                            if mcols is not None and v not in mcols:
+                                bad = bad or ("missing_in_wrong_column", {"var": v, "allowed": mcols})
+                            continue
+                        try:
+                            row.append(names.state_index(v, x.item() if hasattr(x, "item") else x))
+                        except (KeyError, ValueError, TypeError) as e:
+                            bad = bad or ("invalid_state", {"var": v, "value": repr(x)})
+                            row.append(-2)
+                    if len(visible) == n and all(x >= 0 for x in row):
+                        r_ = dict(zip(visible, row))
+                        for v in range(n):
+                            if cond_prob(world, v, r_) <= 0.0:
+                                bad = bad or ("zero_probability_state", {"var": v, "row": row})
+                    canon.append(row)
+                if bad:
+                    ctx.fail("valid_states", f"{PROP}:{bad[0]}:simulate_missing", bad[1])
+                    continue
+                cells = size * (len(mcols) if mcols is not None else len(visible)) if mcols is None else size * len([v for v in mcols if v in visible])
+                if cells >= 400:
+                    eps = hoeffding(cells)
+                    if abs(nmiss / cells - op["missing_prob"]) > eps:
+                        ctx.fail("law", f"{PROP}:law:missing_rate", {"rate": nmiss / cells, "want": op["missing_prob"], "cells": cells, "eps": eps})
+                ctx.xanswer("samples:simulate_missing", canon)
             elif k == "law_simulate":
                 do = {int(a_): int(b_) for a_, b_ in op.get("do", {}).items() if int(a_) < n and int(b_) < card[int(a_)]}
                 if not do or any(v in do for v in ev):
